@@ -201,10 +201,17 @@ func RecoverSecret(g kyber.Group, shares []*PriShare, t, n int) (kyber.Scalar, e
 
 func xScalar(g kyber.Group, shares []*PriShare, t, n int) map[int]kyber.Scalar {
 	x := make(map[int]kyber.Scalar)
+	// one share per index: a repeated index gives two equal x-coordinates
+	// and a zero denominator in the interpolation
+	seen := make(map[int]struct{})
 	for i, s := range shares {
 		if s == nil || s.V == nil || s.I < 0 || n <= s.I {
 			continue
 		}
+		if _, dup := seen[s.I]; dup {
+			continue
+		}
+		seen[s.I] = struct{}{}
 		x[i] = g.Scalar().SetInt64(1 + int64(s.I))
 		if len(x) == t {
 			break
@@ -396,10 +403,16 @@ func (p *PubPoly) Check(s *PriShare) bool {
 // shares using Lagrange interpolation.
 func RecoverCommit(g kyber.Group, shares []*PubShare, t, n int) (kyber.Point, error) {
 	x := make(map[int]kyber.Scalar)
+	// one share per index, as in xScalar
+	seen := make(map[int]struct{})
 	for i, s := range shares {
 		if s == nil || s.V == nil || s.I < 0 || n <= s.I {
 			continue
 		}
+		if _, dup := seen[s.I]; dup {
+			continue
+		}
+		seen[s.I] = struct{}{}
 		x[i] = g.Scalar().SetInt64(1 + int64(s.I))
 	}
 
